@@ -154,6 +154,36 @@ class Engine:
                 return "deadlock", detail
         return "alive", detail
 
+    def main_thread_in_futex(self):
+        try:
+            stat = open(f"/proc/{self.pid}/task/{self.pid}/stat").read()
+            state = stat[stat.rfind(")") + 2:].split()[0]
+            sc = open(f"/proc/{self.pid}/task/{self.pid}/syscall").read().split()[0]
+            return state == "S" and sc == "202"
+        except (OSError, IndexError):
+            return None
+
+    def input_thread_blocked(self, cpu_at_send_ns, cpu_budget_s=8.0, wall_cap_s=90.0):
+        """Load-independent 'stuck' rule: the process went on to consume `cpu_budget_s` seconds of its OWN
+        CPU time after the command was sent (so it was not starved), and at every sample in between its
+        input thread (tid == pid) was asleep in futex - i.e. not reading commands and not running.
+        Returns (True, detail) if so, (False, why) otherwise."""
+        t_end = now() + wall_cap_s
+        samples = 0
+        while now() < t_end:
+            if not self.alive():
+                return False, "exited"
+            st = self.main_thread_in_futex()
+            if st is not True:
+                return False, "input thread not blocked"
+            samples += 1
+            cpu = self.cpu_ns()
+            if cpu is not None and cpu_at_send_ns is not None and (cpu - cpu_at_send_ns) / 1e9 >= cpu_budget_s:
+                return True, {"cpu_seconds_consumed_since_command": round((cpu - cpu_at_send_ns) / 1e9, 2),
+                              "samples_with_input_thread_in_futex": samples, "gdb": self.gdb_bt()}
+            time.sleep(0.2)
+        return False, "cpu budget not reached within the wall cap (machine starved or process idle)"
+
     def gdb_bt(self):
         try:
             p = subprocess.run(["gdb", "-p", str(self.pid), "-batch", "-ex", "thread apply all bt 8"],
@@ -304,6 +334,10 @@ def gen_history(rng, positions, length):
             if not infinite and rng.random() < 0.5:
                 steps.append({"kind": "await_bestmove"})
                 outstanding = False
+    if outstanding and rng.random() < 0.5:
+        # quit may arrive at any time, also while a (possibly infinite) search is running
+        steps.append({"cmd": "quit", "kind": "quit", "gap": rng.choice(GAPS), "during_search": True})
+        return steps
     if outstanding:
         if infinite:
             steps.append({"cmd": "stop", "kind": "stop", "gap": 0.0})
@@ -317,7 +351,34 @@ def cmds_of(steps):
     return [s.get("cmd", "<await bestmove>") for s in steps]
 
 
-def run_history(binary, steps, delays, start_legal, ready_timeout=8.0, trace=False):
+def trace_classes(err_lines):
+    """Interleaving classes from the engine's own trace points (hook H3, VERIF_UCI_TRACE=1)."""
+    pts = []
+    for _, x in err_lines:
+        if x.startswith("verif-trace "):
+            f = x.split()
+            if len(f) >= 3:
+                pts.append(f[1])
+    classes = set()
+    searching = False      # between go.before_lock and go.after_latch_set
+    printed = False        # between go.after_bestmove and go.after_latch_set
+    for p in pts:
+        if p == "go.before_lock":
+            searching, printed = True, False
+        elif p == "go.after_bestmove":
+            printed = True
+        elif p == "go.after_latch_set":
+            searching, printed = False, False
+        elif p == "stop.before_wait":
+            classes.add("trace_stop_waits_for_live_search" if searching and not printed else
+                        "trace_stop_between_bestmove_and_latch_set" if printed else "trace_stop_with_stale_latch")
+        elif p == "newgame.after_reset":
+            classes.add("trace_newgame_between_bestmove_and_latch_set" if printed else
+                        "trace_newgame_while_search_thread_alive" if searching else "trace_newgame_when_idle")
+    return classes, tuple(pts)
+
+
+def run_history(binary, steps, delays, start_legal, ready_timeout=8.0, trace=True):
     """Execute a history; returns dict(verdict=held|violated|inconclusive, signature, what, detail, classes)."""
     env = {}
     if delays:
@@ -329,7 +390,9 @@ def run_history(binary, steps, delays, start_legal, ready_timeout=8.0, trace=Fal
     res = {"verdict": "held", "classes": classes}
     legal_now = start_legal  # legal moves of the position the next go will search
     pending = []  # outstanding go: list of dict(legal=..., out_index=...)
+    last_cpu = {}
     bm_seen = 0  # number of bestmove lines consumed so far
+    quit_during_search = False
     ready_seen = 0
 
     def count_lines(prefix):
@@ -340,8 +403,16 @@ def run_history(binary, steps, delays, start_legal, ready_timeout=8.0, trace=Fal
         res.update({"verdict": "violated", "signature": sig, "what": what,
                     "detail": {"history": e.history(), "delays": delays, **(extra or {})}})
 
-    def unanswered(what_waited, sig):
+    def unanswered(what_waited, sig, cpu_at_send=None):
         kind, detail = e.classify_hang()
+        if kind == "alive" and cpu_at_send is not None:
+            blocked, info = e.input_thread_blocked(cpu_at_send)
+            if blocked:
+                fail(sig.replace(".deadlock", ".input-thread-blocked"),
+                     f"{what_waited}: the engine consumed {info['cpu_seconds_consumed_since_command']} s of CPU time "
+                     f"after the command while its input thread stayed asleep in futex (never back to reading commands)",
+                     {"proc": info})
+                return True
         if kind == "deadlock":
             fail(sig, f"{what_waited}: every thread of the engine sleeps in futex and CPU time is frozen "
                       f"(deadlock)", {"proc": detail})
@@ -369,7 +440,8 @@ def run_history(binary, steps, delays, start_legal, ready_timeout=8.0, trace=Fal
                     continue
                 got = e.wait_line(lambda x: x.startswith("bestmove"), idx[-1] + 1 if idx else 0, 10.0)
                 if got is None:
-                    if unanswered("no bestmove after go", "c05.no-bestmove.deadlock"):
+                    if unanswered("no bestmove after go (and stop, if the search was infinite)", "c05.no-bestmove.deadlock",
+                                  last_cpu.get("stop") if last_cpu.get("stop_pending") else None):
                         break
                     got = e.wait_line(lambda x: x.startswith("bestmove"), 0 if not idx else idx[-1] + 1, 50.0)
                     if got is None:
@@ -381,6 +453,10 @@ def run_history(binary, steps, delays, start_legal, ready_timeout=8.0, trace=Fal
             if st.get("gap"):
                 time.sleep(st["gap"])
             n_ready_before = len(count_lines("readyok"))
+            cpu_at_send = e.cpu_ns()
+            if kind == "stop":
+                last_cpu["stop"] = cpu_at_send
+                last_cpu["stop_pending"] = len(count_lines("bestmove")) < len(pending)
             if not e.send(st["cmd"]):
                 p = e.saw_panic()
                 fail("c05.engine-crashed" if p else "c05.engine-exited",
@@ -402,7 +478,7 @@ def run_history(binary, steps, delays, start_legal, ready_timeout=8.0, trace=Fal
                     with e.cv:
                         e.cv.wait(0.05)
                 if not got:
-                    if unanswered(f"isready not answered after {cmds_of(steps)[:step_no + 1][-6:]}", "c05.isready.deadlock"):
+                    if unanswered(f"isready not answered after {cmds_of(steps)[:step_no + 1][-6:]}", "c05.isready.deadlock", cpu_at_send):
                         break
                     t_end = now() + 52
                     while now() < t_end and len(count_lines("readyok")) <= deadline_idx and e.alive():
@@ -433,10 +509,13 @@ def run_history(binary, steps, delays, start_legal, ready_timeout=8.0, trace=Fal
                 else:
                     classes.add("stop_before_any_go")
             elif kind == "quit":
+                if st.get("during_search"):
+                    classes.add("quit_during_search")
+                    quit_during_search = True
                 try:
                     e.proc.wait(timeout=5)
                 except subprocess.TimeoutExpired:
-                    if unanswered("quit does not end the process", "c05.quit.deadlock"):
+                    if unanswered(f"quit does not end the process (after {cmds_of(steps)[:step_no + 1][-5:]})", "c05.quit.deadlock", cpu_at_send):
                         break
                     try:
                         e.proc.wait(timeout=55)
@@ -451,11 +530,11 @@ def run_history(binary, steps, delays, start_legal, ready_timeout=8.0, trace=Fal
             bms = [x for x in outs if x.startswith("bestmove")]
             if len(bms) > len(pending):
                 fail("c05.extra-bestmove", f"{len(bms)} bestmove lines for {len(pending)} go commands")
-            elif len(bms) < len(pending):
-                # quit may legitimately cut the last search short only if we did not await it - we always await
+            elif len(bms) < len(pending) - (1 if quit_during_search else 0):
+                # only a quit sent while the last search was still running may leave that one go unanswered
                 fail("c05.missing-bestmove", f"{len(bms)} bestmove lines for {len(pending)} go commands")
             else:
-                for bm, pg in zip(bms, pending):
+                for bm, pg in zip(bms, pending):  # zip stops at the shorter list
                     mv = bm.split()[1] if len(bm.split()) > 1 else "?"
                     if pg["legal"] is not None and mv not in pg["legal"]:
                         fail("c05.illegal-bestmove", f"'{bm}' answers '{pg['cmd']}' but is not legal there")
@@ -465,6 +544,11 @@ def run_history(binary, steps, delays, start_legal, ready_timeout=8.0, trace=Fal
                 fail("c05.engine-crashed", f"panic output seen: {p[:200]}")
     finally:
         res["n_commands"] = len(steps)
+        with e.cv:
+            errs = list(e.err_lines)
+        tc, order = trace_classes(errs)
+        classes.update(tc)
+        res["trace_order"] = order
         e.close(send_quit=False)
         if e.alive():
             e.proc.kill()
@@ -490,7 +574,9 @@ def c05_stage(out, tier, seed):
         ["go infinite", "stop", None, "ucinewgame", "stop", "isready"],
         ["ucinewgame", "stop", "isready"],
         ["go depth 2", None, "go infinite", "stop", None, "isready"],
+        ["go infinite", "stop", None, "isready", "go infinite", "isready", "stop", None],
     ]
+    quit_hist = [["go infinite", "quit"], ["go depth 1", None, "go infinite", "isready", "quit"]]
     for f in fixed:
         steps = []
         for c in f:
@@ -503,6 +589,17 @@ def c05_stage(out, tier, seed):
         steps.append({"cmd": "quit", "kind": "quit", "gap": 0.0})
         for d in DELAY_CONFIGS[:3]:
             jobs.append((bins[0], steps, d))
+    for f in quit_hist:
+        steps = []
+        for c in f:
+            if c is None:
+                steps.append({"kind": "await_bestmove"})
+            else:
+                k = c.split()[0]
+                steps.append({"cmd": c, "kind": "go" if k == "go" else k, "gap": 0.0, "infinite": c == "go infinite",
+                              "during_search": k == "quit"})
+        jobs.append((bins[0], steps, {}))
+    n_fixed = len(jobs)
     for i in range(n_hist):
         steps = gen_history(rng, positions, rng.choice([6, 10, 16, 24, 30]))
         d = DELAY_CONFIGS[(i // 2) % len(DELAY_CONFIGS)] if (i % 2 == 0) else {}
@@ -511,9 +608,12 @@ def c05_stage(out, tier, seed):
     lock = threading.Lock()
     stats = {"histories": 0, "commands": 0, "classes": {}, "delay_configs": {}}
     distinct = set()
+    orders = set()
 
     def work(job):
         (bname, binary), steps, delays = job
+        if out.violations_total >= 6:
+            return None  # enough witnesses: do not spend minutes on the slow paths of a broken tree
         r = run_history(binary, steps, delays, start_legal)
         with lock:
             stats["histories"] += 1
@@ -523,6 +623,7 @@ def c05_stage(out, tier, seed):
             dk = ",".join(sorted(delays)) or "none"
             stats["delay_configs"][dk] = stats["delay_configs"].get(dk, 0) + 1
             distinct.add(hash((tuple(cmds_of(steps)), dk, bname)))
+            orders.add(r.get("trace_order", ()))
             if r["verdict"] == "violated":
                 out.add_violation(f"uci-{bname}", r["signature"], r["what"],
                                   {"kind": "py", "check": "c05", "binary": bname, "delays": delays,
@@ -540,7 +641,8 @@ def c05_stage(out, tier, seed):
     for c, n in stats["delay_configs"].items():
         out.features["delays_" + c] = n
     out.features["commands_sent"] = stats["commands"]
-    out.samples.append({"history": cmds_of(jobs[len(fixed) * 3 + 1][1]), "delays": jobs[len(fixed) * 3 + 1][2]})
+    out.extra["x_distinct_internal_event_orders_observed"] = len(orders)
+    out.samples.append({"history": cmds_of(jobs[n_fixed + 1][1]), "delays": jobs[n_fixed + 1][2]})
     out.samples.append({"history": cmds_of(jobs[0][1]), "delays": jobs[0][2]})
     out.rules.append("conforming UCI command histories (isready/stop any time; go/ucinewgame/position/setoption only while "
                      "no bestmove is outstanding) with randomised inter-command gaps and H3 delay configurations, on the "
